@@ -1373,6 +1373,18 @@ Proof.
   eexists. exists y. split; [reflexivity|]. cbn. rewrite upd_same. split; [reflexivity|exact E].
 Qed.
 
+(** * 10c. The issuer is asked once per renewal: a renewal worker that finds the bundle in storage
+    no longer due (it has been renewed meanwhile: by a worker that finished just before, or by another
+    instance) and whose own certificate is not revoked goes on to the reload; no issuer step *)
+Theorem renewal_not_repeated s t th ch c bg st s0 b :
+  t_pc th = PRenLoad ch c bg st -> store s (t_name th) = Some s0 ->
+  needs_renew s0 = false -> revoked c = false ->
+  (forall o, thread_step s t th (AIssue o) = None) /\
+  thread_step s t th (AStep b) = Some (set_thr s t (set_pc th (PRenReload ch c bg))).
+Proof.
+  intros P St N R. unfold thread_step. cbv beta zeta. rewrite P, St, N, R. cbn. split; [intros o|]; reflexivity.
+Qed.
+
 (** * The statement shapes of the source the LTS was written against (translator item
     c13EmitC13Shape): every re-entry into getCertDuringHandshake passes loadOrObtainIfNecessary =
     false; each of the three release sections is Lock; close(wait); delete(map, name); Unlock (one
